@@ -28,6 +28,7 @@ pub enum WOp {
     /// one batch deleting every key of the group
     DeleteAll,
     Flush,
+    CompactAll,
 }
 
 #[derive(Clone, Debug, Serialize, Deserialize, PartialEq, Eq, Hash)]
@@ -146,6 +147,7 @@ pub fn run_case(case: &BatchCase) -> Result<BStats, String> {
                         }
                     }
                     WOp::Flush => db.compact_range(Some(RESERVED_LO)..Some(RESERVED_HI)),
+                    WOp::CompactAll => db.compact_range(None..None),
                 }
             }
             writers_left.fetch_sub(1, Ordering::SeqCst);
@@ -332,7 +334,8 @@ fn strategy() -> BoxedStrategy<BatchCase> {
                 10 => (0u16..300).prop_map(WOp::WriteAll),
                 4 => (0u16..200).prop_map(WOp::WriteAllTwice),
                 2 => Just(WOp::DeleteAll),
-                1 => Just(WOp::Flush),
+                2 => Just(WOp::Flush),
+                1 => Just(WOp::CompactAll),
             ];
             let rk = prop_oneof![Just(RKind::SnapshotGets), Just(RKind::SnapshotGetsReverse), Just(RKind::IterScan), Just(RKind::PlainGets)];
             let dir = (
@@ -342,13 +345,26 @@ fn strategy() -> BoxedStrategy<BatchCase> {
                 15u32..90,
             )
                 .prop_map(|(role, p, nth, max_hold_ms)| Directive { role, point: p.to_string(), nth, max_hold_ms });
+            // a reader parked inside a get (after it captured its view) while flushes, compactions
+            // and obsolete-file deletion go on: its snapshot read must still be served
+            let rdir = (
+                nw as i32..(nw + nr) as i32,
+                select(vec!["get.unlocked", "get.before_version"]),
+                0u32..40,
+                10u32..50,
+            )
+                .prop_map(|(role, p, nth, max_hold_ms)| Directive { role, point: p.to_string(), nth, max_hold_ms });
+            let dirs = (prop::collection::vec(dir, 1..=4), prop::collection::vec(rdir, 0..=2)).prop_map(|(mut a, b)| {
+                a.extend(b);
+                a
+            });
             (
                 (select(vec![512usize, 700, 1500, 100_000]), select(vec![400u64, 1024, 6000]), select(vec![16usize, 128, 4096]), any::<bool>())
                     .prop_map(|(memtable, file, block, reuse)| Cfg { memtable, file, block, reuse }),
                 prop::collection::vec(2u8..=8, nw),
                 prop::collection::vec(prop::collection::vec(wop, 2..10), nw),
                 prop::collection::vec(prop::collection::vec(rk, 1..4), nr),
-                prop::collection::vec(dir, 1..=4),
+                dirs,
             )
         })
         .prop_map(|(cfg, groups, writers, readers, directives)| BatchCase { cfg, groups, writers, readers, directives })
